@@ -19,7 +19,11 @@ from xdsl.ir import (
 )
 from xdsl.ir.affine import AffineMap
 from xdsl.irdl import IRDLOperation
-from xdsl.utils.exceptions import MultipleSpansParseError
+from xdsl.utils.exceptions import (
+    DiagnosticException,
+    MultipleSpansParseError,
+    ParseError,
+)
 from xdsl.utils.lexer import Input, Span
 from xdsl.utils.mlir_lexer import MLIRLexer, MLIRTokenKind
 
@@ -747,7 +751,17 @@ class Parser(AttrParser):
             op_type = self._get_op_by_name(op_name.text)
             dialect_name = op_type.dialect_name()
             self._parser_state.dialect_stack.append(dialect_name)
-            op = op_type.parse(self)
+            try:
+                op = op_type.parse(self)
+            except (ParseError, DiagnosticException, RecursionError, MemoryError):
+                raise
+            except Exception as err:
+                # An error raised by the custom parser of the operation: report it
+                # as a diagnostic at the current position.
+                self.raise_error(
+                    f"Error while parsing operation '{op_name.text}': "
+                    f"{type(err).__name__}: {err}"
+                )
             self._parser_state.dialect_stack.pop()
             if (location := self.parse_optional_location()) is not None:
                 op.location = location
